@@ -152,7 +152,8 @@ def run(ctx):
                         break
                     if isinstance(base, dict) and base.get("k") == "l":
                         v = dict(base, fr=0)
-                        first, second = (bn, ln) if ig.path_exists(bn, ln) else (ln, bn)
+                        # order within one iteration: the read that dominates the other comes first
+                        first, second = (ln, bn) if ig.dominated_by(bn, [ln]) else (bn, ln)
                         if L.redefined_between(ig, v, first, second) is not None:
                             good = False
                             why = "'%s' is re-assigned between reading its table and reading its next" % base.get("n")
